@@ -50,7 +50,7 @@ var defaultWeights = map[string]float64{
 	"unjailReporter": 1.5, "withdrawTip": 3, "delegate": 4, "undelegate": 2.5, "redelegate": 1.5, "cancelUnbond": 0.7,
 	"createValidator": 0.5, "send": 1.5, "proposeDispute": 3, "addFee": 2, "vote": 6, "withdrawFeeRefund": 2.5,
 	"claimReward": 2.5, "addEvidence": 0.8, "updateTeam": 0.3, "withdrawTokens": 1.5, "claimDeposits": 1, "requestAttest": 1,
-	"registerSpec": 0.6, "govProposal": 0.8, "govVote": 2, "privileged": 0.6, "unjailVal": 0.5, "multiStake": 0.8,
+	"tipCustom": 0, "submitCustom": 0, "registerSpec": 0.6, "govProposal": 0.8, "govVote": 2, "privileged": 0.6, "unjailVal": 0.5, "multiStake": 0.8,
 }
 
 func (p Profile) weight(op string) float64 {
@@ -455,6 +455,35 @@ func (g *Gen) op(op string, v *view) []byte {
 			qd = v.queries[g.r.Pick(len(v.queries))].QueryData
 		}
 		return g.tx(s, &oracletypes.MsgSubmitValue{Creator: s.Bech(), QueryData: qd, Value: g.valueFor(qd)})
+	case "tipCustom":
+		s := g.free(g.user)
+		if s == nil || len(g.customQ) == 0 {
+			return nil
+		}
+		return g.tx(s, &oracletypes.MsgTip{Tipper: s.Bech(), QueryData: g.customQ[g.r.Pick(len(g.customQ))], Amount: rawCoin(g.amount(1_000_000))})
+	case "submitCustom":
+		if len(v.reporters) == 0 || len(g.customQ) == 0 {
+			return nil
+		}
+		s := g.free(func() *Account { return g.byAddr(v.reporters[g.r.Pick(len(v.reporters))]) })
+		if s == nil {
+			return nil
+		}
+		// two possible values only: equal-power reporters tie often
+		val := Uint256Value(big.NewInt(int64(100 + g.r.Pick(2))))
+		var open [][]byte
+		for _, q := range v.queries {
+			for _, cq := range g.customQ {
+				if string(q.QueryData) == string(cq) {
+					open = append(open, cq)
+				}
+			}
+		}
+		qd := g.customQ[g.r.Pick(len(g.customQ))]
+		if len(open) > 0 {
+			qd = open[g.r.Pick(len(open))]
+		}
+		return g.tx(s, &oracletypes.MsgSubmitValue{Creator: s.Bech(), QueryData: qd, Value: val})
 	case "createReporter":
 		s := g.free(g.acct)
 		if s == nil {
